@@ -69,6 +69,8 @@ pub fn key_pool_all_sizes(fresh: usize) -> Vec<KeyInfo> {
     let mut v = key_pool(fresh);
     v.push(KeyInfo::load("rsa3072-pss256", rd("rsa-3072.pk8.der"), SignatureScheme::RsaSsaPssSha256));
     v.push(KeyInfo::load("rsa3072-pss512", rd("rsa-3072.pk8.der"), SignatureScheme::RsaSsaPssSha512));
+    // a public exponent whose DER encoding needs a leading zero byte (0x80000003)
+    v.push(KeyInfo::load("rsa2048-e80000003-pss256", rd("rsa-2048-e80000003.pk8.der"), SignatureScheme::RsaSsaPssSha256));
     v
 }
 
@@ -216,7 +218,11 @@ pub fn gen_rules(r: &mut Rng, steps: &[String]) -> Vec<ArtifactRule> {
 }
 
 pub fn gen_expires(r: &mut Rng) -> DateTime<Utc> {
-    match r.below(5) {
+    use chrono::Timelike;
+    match r.below(7) {
+        // a leap second (RFC 3339 `:60`), in a minute where one was inserted and in an arbitrary one
+        5 => Utc.with_ymd_and_hms(2016, 12, 31, 23, 59, 59).unwrap().with_nanosecond(1_000_000_000).unwrap(),
+        6 => Utc.timestamp_opt((r.next() % 4_000_000_000) as i64 / 60 * 60 + 59, 0).unwrap().with_nanosecond(1_000_000_000).unwrap(),
         0 => DateTime::UNIX_EPOCH,
         1 => Utc.with_ymd_and_hms(2030, 12, 31, 23, 59, 59).unwrap(),
         2 => Utc.timestamp_opt((r.next() % 4_000_000_000) as i64, 0).unwrap(),
@@ -225,18 +231,50 @@ pub fn gen_expires(r: &mut Rng) -> DateTime<Utc> {
     }
 }
 
+/// The key as it is, or (ed25519 / ecdsa) the same material with another `keyid_hash_algorithms` member:
+/// absent, empty, one entry, the usual two in the other order, an unknown name.
+pub fn key_variant(r: &mut Rng, k: &PublicKey) -> PublicKey {
+    if r.chance(2, 3) {
+        return k.clone();
+    }
+    let algs: Option<Vec<String>> = match r.below(6) {
+        0 => None,
+        1 => Some(vec![]),
+        2 => Some(vec!["sha256".into()]),
+        3 => Some(vec!["sha512".into(), "sha256".into()]),
+        4 => Some(vec!["sha256".into(), "sha512".into(), "sha256".into()]),
+        _ => Some(vec![gen_string(r)]),
+    };
+    let v = match k.typ() {
+        KeyType::Ed25519 => PublicKey::from_ed25519_with_keyid_hash_algorithms(k.as_bytes().to_vec(), algs).ok(),
+        KeyType::Ecdsa => PublicKey::from_ecdsa_with_keyid_hash_algorithms(k.as_bytes().to_vec(), algs).ok(),
+        _ => None,
+    };
+    v.unwrap_or_else(|| k.clone())
+}
+
 pub fn gen_layout(r: &mut Rng, pool: &[KeyInfo]) -> LayoutMetadata {
     let nsteps = r.below(4);
     let names: Vec<String> = (0..nsteps)
         .map(|i| if r.chance(3, 4) { format!("step{}", i) } else { gen_string(r) })
         .collect();
-    let mut b = LayoutMetadataBuilder::new().expires(gen_expires(r)).readme(gen_string(r));
+    let expires = gen_expires(r);
+    // the builder itself is code under test: an expiry it cannot take is recorded and replaced
+    let expires = match crate::proto::guarded(move || LayoutMetadataBuilder::new().expires(expires).build().map(|l| l.expires)) {
+        Ok(_) => expires,
+        Err(()) => {
+            crate::proto::generator_panic("building a layout with a representable expiry panicked", format!("LayoutMetadataBuilder::new().expires({:?}).build()", expires));
+            Utc.with_ymd_and_hms(2030, 1, 1, 0, 0, 0).unwrap()
+        }
+    };
+    let mut b = LayoutMetadataBuilder::new().expires(expires).readme(gen_string(r));
     let nkeys = r.below(4);
     let mut ids = vec![];
     for _ in 0..nkeys {
         let k = r.pick(pool);
-        ids.push(k.public().key_id().clone());
-        b = b.add_key(k.public().clone());
+        let pk = key_variant(r, k.public());
+        ids.push(pk.key_id().clone());
+        b = b.add_key(pk);
     }
     for n in &names {
         let mut s = Step::new(n)
